@@ -784,9 +784,42 @@ func (ex *Exec) lookup(st *State, x *ssa.Lookup) Value {
 // range over a map or string: the iteration order and count are unknown; each Next yields an
 // uninterpreted (ok, key, value) triple (loops over them are unrolled up to the symbolic bound).
 func (ex *Exec) rangeInit(st *State, x *ssa.Range) Value {
-	return &HostVal{Kind: "range", V: ex.operand(st, x.X)}
+	v := ex.operand(st, x.X)
+	if mv, ok := v.(*MapVal); ok && len(mv.Alts) == 1 && mv.Alts[0].O != nil {
+		// engine-level map with a concrete list of entries: iterate them in insertion order
+		cnt := ex.newObj("range-counter", OCell, nil)
+		cnt.fresh = true
+		st.heap[cnt] = IntLit(0)
+		return &HostVal{Kind: "maprange", V: &TupleVal{V: []Value{mv, &PtrVal{Alts: []PtrAlt{{C: TTrue, O: cnt}}}}}}
+	}
+	return &HostVal{Kind: "range", V: v}
 }
 func (ex *Exec) rangeNext(st *State, x *ssa.Next) Value {
+	if hv, ok := ex.operand(st, x.Iter).(*HostVal); ok && hv.Kind == "maprange" {
+		tv := hv.V.(*TupleVal)
+		mv, cp := tv.V[0].(*MapVal), tv.V[1].(*PtrVal)
+		mc := ex.mapContent(st, mv.Alts[0].O)
+		iT, _ := ex.heapGet(st, cp.Alts[0].O).(*Term)
+		i, _ := iT.IntVal()
+		tup := x.Type().(*types.Tuple)
+		res := &TupleVal{V: []Value{BoolLit(int(i) < len(mc.Ents))}}
+		if int(i) < len(mc.Ents) {
+			res.V = append(res.V, mc.Ents[i].K, mc.Ents[i].V)
+			st.heap[cp.Alts[0].O] = IntLit(i + 1)
+		} else {
+			for k := 1; k < tup.Len(); k++ {
+				t := tup.At(k).Type()
+				if b, ok := t.(*types.Basic); ok && b.Kind() == types.Invalid {
+					res.V = append(res.V, nil)
+				} else if k == 1 {
+					res.V = append(res.V, StrLit(""))
+				} else {
+					res.V = append(res.V, ex.zeroValue(mv.V))
+				}
+			}
+		}
+		return res
+	}
 	ex.objSeq++
 	tup := x.Type().(*types.Tuple)
 	tv := &TupleVal{V: []Value{Fresh("range.ok", SBool)}}
